@@ -1,6 +1,7 @@
 import CuqiVerif.Model.Proto
 import CuqiVerif.Model.QMat
 import CuqiVerif.Model.C20
+import CuqiVerif.Model.C20Hist
 open CuqiVerif CuqiVerif.Proto CuqiVerif.C20
 
 def fmtIntMat (m : List (List Int)) : String :=
@@ -16,7 +17,35 @@ def accepts (order : Nat) (bc : BC) (n : Nat) : Bool :=
   | 2 => secondOrderAccepts bc && (bc != .periodic || n ≥ 2) && (bc != .neumann || n ≥ 2)
   | _ => false
 
+/-- one GMRF object driven through a history: `p=<rat>` / `m=<vec>` re-assign, `q=<vec>` / `g=<vec>` / `S` / `T` read -/
+def histRun (s : GState) : List String → List String → Option (List String)
+  | [], acc => some acc.reverse
+  | tok :: rest, acc =>
+    match tok.splitOn "=" with
+    | ["p", v] => match parseRat v with
+      | some p => histRun (s.apply (.setPrec p)) rest acc
+      | none => none
+    | ["m", v] => match parseVec v with
+      | some m => histRun (s.apply (.setMean m)) rest acc
+      | none => none
+    | ["q", v] => match parseVec v with
+      | some x => histRun s rest (fmtRat (s.quad x) :: acc)
+      | none => none
+    | ["g", v] => match parseVec v with
+      | some x => histRun s rest (fmtVec (s.grad x) :: acc)
+      | none => none
+    | ["S"] => histRun s rest (fmtMat s.scaledPrec :: acc)
+    | ["T"] => histRun s rest (fmtVec s.precMean :: acc)
+    | _ => none
+
 def step : List String → String
+  | ["gmrfhist", P, p0, m0, script] =>
+    match parseMat P, parseRat p0, parseVec m0 with
+    | some P, some p0, some m0 =>
+      match histRun { P := P, prec := p0, mean := m0 } (script.splitOn "/") [] with
+      | some outs => if outs.isEmpty then "_" else " | ".intercalate outs
+      | none => "bad-op"
+    | _, _, _ => "bad-op"
   | ["diff1", o, b, n] =>
     match o.toNat?, BC.ofString b, n.toNat? with
     | some o, some bc, some n => if accepts o bc n then fmtIntMat (diffOp o bc n).toList else "err"
